@@ -51,6 +51,7 @@ type e2eInput struct {
 	Seed       int64          `json:"seed"`
 	Store      string         `json:"store"`
 	HistLen    int            `json:"histlen"`
+	Cap        int            `json:"cap"` // INBUCKET_STORAGE_MAILBOXMSGCAP (0 = none)
 	Behaviours []e2eBehaviour `json:"behaviours"`
 }
 
@@ -282,7 +283,7 @@ func cmdE2E(args []string) error {
 		"INBUCKET_WEB_MONITORHISTORY": fmt.Sprint(in.HistLen), "INBUCKET_MAILBOXNAMING": "local",
 		"INBUCKET_STORAGE_TYPE": map[string]string{"mem": "memory", "file": "file"}[in.Store],
 		"INBUCKET_WEB_UIDIR":    filepath.Join(scratch, "ui"), "INBUCKET_LUA_PATH": filepath.Join(scratch, "none.lua"),
-		"INBUCKET_STORAGE_RETENTIONPERIOD": "24h",
+		"INBUCKET_STORAGE_RETENTIONPERIOD": "24h", "INBUCKET_STORAGE_MAILBOXMSGCAP": fmt.Sprint(in.Cap),
 	}
 	if in.Store == "file" {
 		env["INBUCKET_STORAGE_PARAMS"] = "path:" + filepath.Join(scratch, "store")
@@ -333,7 +334,7 @@ func cmdE2E(args []string) error {
 			}
 			ev["serr"] = errs
 		}
-		rev := tr.Ev{"a": "reset", "t": b.ID, "histlen": in.HistLen, "store": in.Store}
+		rev := tr.Ev{"a": "reset", "t": b.ID, "histlen": in.HistLen, "cap": in.Cap, "store": in.Store}
 		snapInto(rev)
 		w.Emit(rev)
 		for i, st := range b.Steps {
